@@ -62,6 +62,9 @@ let () =
         (match Sexp.args sx with
          | [Sexp.A "ok"] -> ()
          | _ -> bad ["spec:api-call-hung"] line)
+    | "stuck" ->
+        incr steps; incr nontriv;
+        bad ["spec:gauges-stuck-nonzero"] line
     | "afterclose" ->
         if List.exists (fun a -> a <> Sexp.A "closed") (Sexp.args sx) then bad ["spec:after-close-not-errclosed"] line
     | "error" -> bad ["spec:call-did-not-return"; "harness-error"] line
